@@ -70,8 +70,12 @@ def native_confirm(prop, lemma, scr):
             if b.returncode != 0:
                 return out
             built = True
+        # demos with a probe crate build next to themselves: run a private copy so nothing under /verif is written
+        priv = os.path.join(scr.root, "demo-" + os.path.basename(os.path.dirname(mp)))
+        subprocess.call(["rsync", "-a", "--delete", "--exclude", "target", os.path.dirname(mp) + "/", priv + "/"])
+        demo_run = os.path.join(priv, "demo.sh")
         try:
-            r = subprocess.run(["bash", demo, tree], capture_output=True, text=True, timeout=600, env=xv.ENV)
+            r = subprocess.run(["bash", demo_run, tree], capture_output=True, text=True, timeout=600, env=xv.ENV)
             out.append({"demo": demo, "exit": r.returncode, "tail": (r.stdout + r.stderr)[-400:]})
         except subprocess.TimeoutExpired:
             out.append({"demo": demo, "exit": "timeout"})
